@@ -233,7 +233,11 @@ func c18Body(r *Run) {
 		go func() {
 			defer func() { c.done = true }()
 			ctx, cancel := context.WithCancel(context.Background())
-			defer cancel()
+			defer func() {
+				if c.behaviour != 5 {
+					cancel() // behaviour 5: the caller's context stays alive for ever, only the listener's time-out may end it
+				}
+			}()
 			cmd := &c18Cmd{Caller: c.id}
 			switch c.behaviour {
 			case 0:
